@@ -69,7 +69,9 @@ def main(table_path, out_path):
                 vals = [VAL[cls][(li + j) % len(VAL[cls])] for j, cls in enumerate(c["calls"])]
                 vals = [worst if v == "W" else -worst if v == "B" else v for v in vals]
                 base.values = list(vals) + [0.0] * 8
-                sig0 = f"stack={'/'.join(c['stack'])} maximize={maximize} calls={','.join(c['calls'])}" + (" optimum=-1024 precision=2^-27" if conc == 2 else "")
+                ents = c.get("ents") or [1] * len(c["calls"])     # layer (1 = top) each call enters the stack at
+                sig0 = f"stack={'/'.join(c['stack'])} maximize={maximize} calls={','.join(c['calls'])}" + (
+                    f" entering_at_layer={','.join(map(str, ents))}" if any(e != 1 for e in ents) else "") + (" optimum=-1024 precision=2^-27" if conc == 2 else "")
                 # static transparency
                 if not (np.array_equal(top.bounds, BOUNDS) and top.maximize == maximize
                         and get_function_problem(top) is fp):
@@ -85,7 +87,8 @@ def main(table_path, out_path):
                     # evaluate(phenome, *args, **kwargs): extra arguments belong to the objective and must arrive unchanged
                     extra = [((), {}), ((7,), {}), ((), {"scale": 0.5}), ((3, "a"), {"scale": 2.0, "tag": None})][(li + j) % 4]
                     base.last_args = None
-                    r = top.evaluate(x, *extra[0], **extra[1])
+                    base.values[base.calls] = vals[j]      # the objective's value for THIS call (refused calls consume none)
+                    r = layers[ents[j] - 1].evaluate(x, *extra[0], **extra[1])
                     if base.calls == before + 1 and base.last_args != (extra[0], extra[1]):
                         viol.append({"clause": "C16_Transparent", "signature": f"{sig0} call#{j + 1}",
                                      "detail": {"passed": repr(extra), "objective_received": repr(base.last_args)}})
@@ -96,9 +99,9 @@ def main(table_path, out_path):
                             viol.append({"clause": "C16_CutoffRefusesWithWorst", "signature": sig,
                                          "detail": {"returned": repr(r), "base_called": base.calls != before}})
                     else:
-                        if base.calls != before + 1 or r != vals[before]:
+                        if base.calls != before + 1 or r != vals[j]:
                             viol.append({"clause": "C16_Transparent", "signature": sig,
-                                         "detail": {"returned": repr(r), "expected": repr(vals[before]) if before < len(vals) else None}})
+                                         "detail": {"returned": repr(r), "expected": repr(vals[j])}})
                     if base.calls != exp["base"]:
                         viol.append({"clause": "C16_BaseCalls", "signature": sig,
                                      "detail": {"base_calls": base.calls, "expected": exp["base"]}})
